@@ -391,8 +391,10 @@ fn runstats_case(ctx: &Ctx, rep: &mut Report, case: u64, g: &mut Sm64) {
     let arr = to_array(&gen.data);
     rep.eval();
     rep.distinct(("runstats", c, n, p, consts));
+    let as_f64 = case % 3 == 1;
     match guard(|| {
-        let rs = RunStats::from(arr.view());
+        // RunStats::from is generic over the element type: also feed it the same numbers as f64
+        let rs = if as_f64 { RunStats::from(arr.mapv(|x| x as f64).view()) } else { RunStats::from(arr.view()) };
         let (rh, es) = split_rhat_mean_ess(arr.view());
         (rs, rh, es)
     }) {
